@@ -1520,6 +1520,218 @@ pub proof fn lemma_cond_unique(a: HeaderCondition, b: HeaderCondition, h: RouteH
     ensures a == b,
 { axiom_string_ext(); }
 
+// ================================================================ date-time layer (one bucket per SET of date/time conditions)
+// SHIMS: the trigger value types are opaque here (unit rtr verifies their predicates)
+#[verifier::external_body] pub struct RouteDateTime { x: u8 }
+#[verifier::external_body] pub struct RouteTime { x: u8 }
+#[verifier::external_body] pub struct RouteWeekday { x: u8 }
+//@@ item src/router/request_matcher/datetime.rs :: enum DateTimeCondition
+impl PartialEq for DateTimeCondition { #[verifier::external_body] fn eq(&self, o: &Self) -> bool { unimplemented!() } }
+impl Eq for DateTimeCondition {}
+impl PartialOrd for DateTimeCondition { #[verifier::external_body] fn partial_cmp(&self, o: &Self) -> Option<std::cmp::Ordering> { unimplemented!() } }
+impl Ord for DateTimeCondition { #[verifier::external_body] fn cmp(&self, o: &Self) -> std::cmp::Ordering { unimplemented!() } }
+// ASSUMED (trusted, listed): derived Clone yields an equal value; derived Ord is a total order consistent with Eq (key model)
+impl Clone for DateTimeCondition { #[verifier::external_body] fn clone(&self) -> (r: Self) ensures r == *self { unimplemented!() } }
+#[verifier::external_body] pub broadcast proof fn axiom_dtc_key() ensures #[trigger] vstd::std_specs::btree::key_obeys_cmp_spec::<DateTimeCondition>() {}
+#[verifier::external_body] pub broadcast proof fn axiom_dtcset_key() ensures #[trigger] vstd::std_specs::btree::key_obeys_cmp_spec::<BTreeSet<DateTimeCondition>>() {}
+#[verifier::external_body] pub fn outl_dtset_clone(s: &BTreeSet<DateTimeCondition>) -> (r: BTreeSet<DateTimeCondition>) ensures r == *s { /* verbatim: condition_group.clone() */ s.clone() }
+#[verifier::external_body] pub fn outl_vec_rdt_clone(v: &Vec<RouteDateTime>) -> (r: Vec<RouteDateTime>) ensures r == *v { /* verbatim: route_datetime.clone() */ unimplemented!() }
+#[verifier::external_body] pub fn outl_vec_rt_clone(v: &Vec<RouteTime>) -> (r: Vec<RouteTime>) ensures r == *v { /* verbatim: route_time.clone() */ unimplemented!() }
+#[verifier::external_body] pub fn outl_rw_clone(v: &RouteWeekday) -> (r: RouteWeekday) ensures r == *v { /* verbatim: route_weekdays.clone() */ unimplemented!() }
+pub uninterp spec fn rdatetime<T>(r: Route<T>) -> Option<Vec<RouteDateTime>>;
+pub uninterp spec fn rtime<T>(r: Route<T>) -> Option<Vec<RouteTime>>;
+pub uninterp spec fn rweekdays<T>(r: Route<T>) -> Option<RouteWeekday>;
+pub open spec fn oref<V>(o: Option<&V>) -> Option<V> { match o { Some(v) => Some(*v), None => None } }
+impl<T> Route<T> {
+    #[verifier::external_body] pub fn datetime(&self) -> (r: Option<&Vec<RouteDateTime>>) ensures oref(r) == rdatetime(*self) { unimplemented!() }
+    #[verifier::external_body] pub fn time(&self) -> (r: Option<&Vec<RouteTime>>) ensures oref(r) == rtime(*self) { unimplemented!() }
+    #[verifier::external_body] pub fn weekdays(&self) -> (r: Option<&RouteWeekday>) ensures oref(r) == rweekdays(*self) { unimplemented!() }
+}
+// statement of C01 for the date/time triggers: the bucket key of a route is exactly the set of its date-time, weekday and time conditions
+pub open spec fn dt_group_of<T>(k: Set<DateTimeCondition>, x: RouteRef<T>) -> bool {
+    forall|c: DateTimeCondition| #[trigger] k.contains(c) <==>
+        (rdatetime(*x) matches Some(v) && c == DateTimeCondition::DateTimeRange(v)) || (rweekdays(*x) matches Some(w) && c == DateTimeCondition::Weekdays(w)) || (rtime(*x) matches Some(v) && c == DateTimeCondition::TimeRange(v))
+}
+pub open spec fn dt_none<T>(x: RouteRef<T>) -> bool { rdatetime(*x) is None && rweekdays(*x) is None && rtime(*x) is None }
+pub open spec fn dt_kf<T>() -> spec_fn(BTreeSet<DateTimeCondition>, RouteRef<T>) -> bool { |k: BTreeSet<DateTimeCondition>, x: RouteRef<T>| !dt_none(x) && dt_group_of(k@, x) }
+//@@ rename PathAndQueryMatcher Sub
+//@@ item src/router/request_matcher/datetime.rs :: struct DateTimeMatcher
+impl<T> DateTimeMatcher<T> {
+    pub open spec fn sholds(&self, x: RouteRef<T>) -> bool { self.any_datetime.holds(x) || map_holds(self.condition_groups@, x) }
+    pub open spec fn counted(&self) -> bool { exists|s: Set<RouteRef<T>>| #[trigger] s.len() <= self.count && forall|x: RouteRef<T>| s.contains(x) <==> self.sholds(x) }
+    pub open spec fn swf(&self) -> bool {
+        &&& self.any_datetime.wf() && map_wf(self.condition_groups@)
+        &&& self.counted()
+        &&& forall|x: RouteRef<T>, y: RouteRef<T>| #[trigger] self.sholds(x) && #[trigger] self.sholds(y) && rid(*x) == rid(*y) ==> x == y
+        &&& map_keyed(self.condition_groups@, dt_kf::<T>())
+        &&& forall|x: RouteRef<T>| #[trigger] self.any_datetime.holds(x) ==> dt_none(x)
+    }
+}
+impl<T> Store<T> for DateTimeMatcher<T> {
+    open spec fn holds(&self, x: RouteRef<T>) -> bool { self.sholds(x) }
+    open spec fn cnt(&self) -> nat { self.count as nat }
+    open spec fn wf(&self) -> bool { self.swf() }
+}
+pub proof fn lemma_dt_uniq_bridge<T>(n: DateTimeMatcher<T>)
+    requires uniq(n),
+    ensures forall|x: RouteRef<T>, y: RouteRef<T>| #[trigger] n.sholds(x) && #[trigger] n.sholds(y) && rid(*x) == rid(*y) ==> x == y,
+{
+    assert forall|x: RouteRef<T>, y: RouteRef<T>| #[trigger] n.sholds(x) && #[trigger] n.sholds(y) && rid(*x) == rid(*y) implies x == y by { assert(n.holds(x) && n.holds(y)); }
+}
+pub proof fn lemma_dt_wf<T>(s: DateTimeMatcher<T>)
+    requires s.wf(),
+    ensures uniq(s), s.cnt() == 0 ==> forall|x: RouteRef<T>| !s.holds(x), s.cnt() <= usize::MAX,
+{
+    let w = choose|w: Set<RouteRef<T>>| #[trigger] w.len() <= s.count && forall|x: RouteRef<T>| w.contains(x) <==> s.sholds(x);
+    if s.count == 0 { assert forall|x: RouteRef<T>| !s.holds(x) by { if s.sholds(x) { assert(w.contains(x)); assert(w.len() > 0) by { if w.len() == 0 { assert(w =~= Set::<RouteRef<T>>::empty()); } } } } }
+}
+pub proof fn lemma_dt_counted_insert<T>(o: DateTimeMatcher<T>, n: DateTimeMatcher<T>, rt: RouteRef<T>)
+    requires o.counted(), n.count == o.count + 1, forall|x: RouteRef<T>| #![trigger n.sholds(x)] n.sholds(x) <==> o.sholds(x) || x == rt,
+    ensures n.counted(),
+{
+    let w = choose|w: Set<RouteRef<T>>| #[trigger] w.len() <= o.count && forall|x: RouteRef<T>| w.contains(x) <==> o.sholds(x);
+    let w2 = w.insert(rt);
+    assert(w2.len() <= n.count && forall|x: RouteRef<T>| w2.contains(x) <==> n.sholds(x));
+}
+pub proof fn lemma_dt_counted_sub<T>(o: DateTimeMatcher<T>, n: DateTimeMatcher<T>, dec: bool)
+    requires o.counted(), forall|x: RouteRef<T>| #[trigger] n.sholds(x) ==> o.sholds(x),
+        !dec ==> n.count == o.count,
+        dec ==> n.count + 1 == o.count && exists|x0: RouteRef<T>| o.sholds(x0) && !n.sholds(x0),
+    ensures n.counted(),
+{
+    let w = choose|w: Set<RouteRef<T>>| #[trigger] w.len() <= o.count && forall|x: RouteRef<T>| w.contains(x) <==> o.sholds(x);
+    let w2 = w.filter(|x: RouteRef<T>| n.sholds(x));
+    w.lemma_len_filter(|x: RouteRef<T>| n.sholds(x));
+    assert forall|x: RouteRef<T>| w2.contains(x) <==> n.sholds(x) by {}
+    if dec {
+        let x0 = choose|x0: RouteRef<T>| o.sholds(x0) && !n.sholds(x0);
+        assert(w.contains(x0) && !w2.contains(x0));
+        assert(w2.subset_of(w.remove(x0)));
+        vstd::set_lib::lemma_len_subset(w2, w.remove(x0));
+    }
+    assert(w2.len() <= n.count);
+}
+
+pub proof fn lemma_dt_inserted<T>(o: DateTimeMatcher<T>, n: DateTimeMatcher<T>, rt: RouteRef<T>)
+    requires o.wf(), forall|x: RouteRef<T>| o.holds(x) ==> rid(*x) != rid(*rt), n.count == o.count + 1,
+        n.any_datetime.wf(), map_wf(n.condition_groups@), map_keyed(n.condition_groups@, dt_kf::<T>()),
+        forall|x: RouteRef<T>| #![trigger n.sholds(x)] n.sholds(x) <==> o.sholds(x) || x == rt,
+        forall|x: RouteRef<T>| #[trigger] n.any_datetime.holds(x) ==> dt_none(x),
+    ensures inserted_rel(o, n, rt),
+{
+    lemma_dt_counted_insert(o, n, rt);
+    assert forall|x: RouteRef<T>| #![trigger n.holds(x)] #![trigger o.holds(x)] n.holds(x) <==> o.holds(x) || x == rt by {}
+    lemma_uniq_inserted(o, n, rt); lemma_dt_uniq_bridge(n);
+}
+pub proof fn lemma_dt_removed_any<T>(o: DateTimeMatcher<T>, n: DateTimeMatcher<T>, id: Seq<char>, x0: RouteRef<T>)
+    requires o.wf(), n.condition_groups@ == o.condition_groups@, removed_rel(o.any_datetime, n.any_datetime, id, Some(x0)), n.count + 1 == o.count,
+    ensures removed_rel(o, n, id, Some(x0)),
+{
+    assert(o.holds(x0));
+    assert forall|y: RouteRef<T>| #![trigger n.holds(y)] #![trigger o.holds(y)] n.holds(y) <==> o.holds(y) && rid(*y) != id by { if o.holds(y) && rid(*y) == id { assert(y == x0); } }
+    lemma_uniq_subset(o, n); lemma_dt_uniq_bridge(n);
+    assert(o.sholds(x0) && !n.sholds(x0));
+    lemma_dt_counted_sub(o, n, true);
+    assert forall|x: RouteRef<T>| #[trigger] n.any_datetime.holds(x) implies dt_none(x) by { assert(o.any_datetime.holds(x)); }
+}
+pub proof fn lemma_dt_removed<T>(o: DateTimeMatcher<T>, n: DateTimeMatcher<T>, id: Seq<char>, r: Option<RouteRef<T>>)
+    requires o.wf(), removed_rel(o.any_datetime, n.any_datetime, id, None::<RouteRef<T>>), entries_removed(o.condition_groups@, n.condition_groups@, id),
+        r matches Some(x) ==> rid(*x) == id && map_holds(o.condition_groups@, x), r is None ==> !map_holds_id(o.condition_groups@, id),
+        n.count + (if r is Some { 1int } else { 0int }) == o.count,
+    ensures removed_rel(o, n, id, r),
+{
+    lemma_sub_empty::<T>();
+    lemma_map_removed_holds(o.condition_groups@, n.condition_groups@, id, dt_kf::<T>());
+    assert forall|y: RouteRef<T>| #![trigger n.holds(y)] #![trigger o.holds(y)] n.holds(y) <==> o.holds(y) && rid(*y) != id by {
+        if o.any_datetime.holds(y) { assert(holds_id(o.any_datetime, id) || rid(*y) != id); }
+    }
+    if r is Some { let x = r.unwrap(); assert(o.holds(x)); assert(o.sholds(x) && !n.sholds(x)); }
+    else {
+        assert forall|y: RouteRef<T>| #[trigger] o.holds(y) implies rid(*y) != id by {
+            if o.any_datetime.holds(y) { assert(holds_id(o.any_datetime, id) || rid(*y) != id); }
+            if map_holds(o.condition_groups@, y) { let k = choose|k: BTreeSet<DateTimeCondition>| o.condition_groups@.contains_key(k) && #[trigger] o.condition_groups@[k].holds(y); assert(map_holds_id(o.condition_groups@, id) || rid(*y) != id); }
+        }
+    }
+    lemma_uniq_subset(o, n); lemma_dt_uniq_bridge(n);
+    lemma_dt_counted_sub(o, n, r is Some);
+    assert forall|x: RouteRef<T>| #[trigger] n.any_datetime.holds(x) implies dt_none(x) by { assert(o.any_datetime.holds(x)); }
+}
+pub proof fn lemma_dt_batched<T>(o: DateTimeMatcher<T>, n: DateTimeMatcher<T>, ids: Set<String>)
+    requires o.wf(), batched_rel(o.any_datetime, n.any_datetime, ids), entries_batched(o.condition_groups@, n.condition_groups@, ids), n.count == o.count,
+    ensures batched_rel(o, n, ids),
+{
+    lemma_sub_empty::<T>();
+    lemma_map_batched(o.condition_groups@, n.condition_groups@, ids, dt_kf::<T>());
+    assert forall|y: RouteRef<T>| #![trigger n.holds(y)] #![trigger o.holds(y)] n.holds(y) <==> o.holds(y) && !ids_has(ids, rid(*y)) by {}
+    lemma_uniq_subset(o, n); lemma_dt_uniq_bridge(n);
+    lemma_dt_counted_sub(o, n, false);
+    assert forall|x: RouteRef<T>| #[trigger] n.any_datetime.holds(x) implies dt_none(x) by { assert(o.any_datetime.holds(x)); }
+}
+
+impl<T> DateTimeMatcher<T> {
+    //@@ fn src/router/request_matcher/datetime.rs :: impl <T>DateTimeMatcher<T> / fn new -> r
+    //@| ensures r.wf(), r.cnt() == 0, forall|x: RouteRef<T>| !r.holds(x),
+    //@| entry broadcast use vstd::std_specs::btree::group_btree_axioms; broadcast use axiom_dtc_key; broadcast use axiom_dtcset_key;
+    //@| exit proof { let w = Set::<RouteRef<T>>::empty(); assert(w.len() <= vf_ret.count && forall|x: RouteRef<T>| w.contains(x) <==> vf_ret.sholds(x)); }
+
+    //@@ fn src/router/request_matcher/datetime.rs :: impl <T>DateTimeMatcher<T> / fn insert
+    //@| requires old(self).wf(), old(self).cnt() < usize::MAX, forall|x: RouteRef<T>| old(self).holds(x) ==> rid(*x) != rid(*route),
+    //@|     old(self).any_datetime.cnt() < usize::MAX, forall|k: BTreeSet<DateTimeCondition>| old(self).condition_groups@.contains_key(k) ==> (#[trigger] old(self).condition_groups@[k]).cnt() < usize::MAX,
+    //@| ensures inserted_rel(*old(self), *final(self), route),
+    //@| outline `condition_group.clone()` => `outl_dtset_clone(&condition_group)`
+    //@| outline `route_datetime.clone()` => `outl_vec_rdt_clone(route_datetime)`
+    //@| outline `route_time.clone()` => `outl_vec_rt_clone(route_time)`
+    //@| outline `route_weekdays.clone()` => `outl_rw_clone(route_weekdays)`
+    //@| entry broadcast use vstd::std_specs::btree::group_btree_axioms; broadcast use axiom_dtc_key; broadcast use axiom_dtcset_key; broadcast use axiom_arc_cloned;
+    //@|     let ghost m0 = self.condition_groups@; let ghost rt = route; let ghost kf = dt_kf::<T>();
+    //@| before `return;`: proof {
+    //@|     assert(dt_none(rt)) by { if !dt_none(rt) { if rdatetime(*rt) is Some { assert(route_conditions@.contains(DateTimeCondition::DateTimeRange(rdatetime(*rt).unwrap()))); } else if rweekdays(*rt) is Some { assert(route_conditions@.contains(DateTimeCondition::Weekdays(rweekdays(*rt).unwrap()))); } else { assert(route_conditions@.contains(DateTimeCondition::TimeRange(rtime(*rt).unwrap()))); } } }
+    //@|     assert forall|x: RouteRef<T>| #![trigger self.sholds(x)] self.sholds(x) <==> old(self).sholds(x) || x == rt by {}
+    //@|     assert forall|x: RouteRef<T>| #[trigger] self.any_datetime.holds(x) implies dt_none(x) by { if x != rt { assert(old(self).any_datetime.holds(x)); } }
+    //@|     lemma_dt_inserted(*old(self), *self, rt);
+    //@| }
+    //@| before `let matcher = self.condition_groups.get_mut(&condition_group).unwrap();`: let ghost m1 = self.condition_groups@; let ghost key = condition_group;
+    //@|     proof {
+    //@|         assert(!dt_none(rt)) by { if dt_none(rt) { assert(route_conditions@ =~= Set::<DateTimeCondition>::empty()); } }
+    //@|         assert(dt_group_of(key@, rt));
+    //@|         assert(kf(key, rt));
+    //@|         assert(m1.contains_key(key) && m1[key].wf()); lemma_sub_wf(m1[key]);
+    //@|         if m0.contains_key(key) { assert(m1 == m0); assert forall|x: RouteRef<T>| m1[key].holds(x) implies rid(*x) != rid(*route) by { assert(map_holds(m0, x)); assert(old(self).sholds(x)); assert(old(self).holds(x)); } }
+    //@|         else { assert(m1 == m0.insert(key, m1[key])); }
+    //@|     }
+    //@| exit proof {
+    //@|     assert(self.condition_groups@ =~= m0.insert(key, self.condition_groups@[key]));
+    //@|     lemma_map_inserted(m0, self.condition_groups@, key, rt, kf);
+    //@|     assert forall|x: RouteRef<T>| #![trigger self.sholds(x)] self.sholds(x) <==> old(self).sholds(x) || x == rt by {}
+    //@|     assert forall|x: RouteRef<T>| #[trigger] self.any_datetime.holds(x) implies dt_none(x) by { assert(old(self).any_datetime.holds(x)); }
+    //@|     lemma_dt_inserted(*old(self), *self, rt);
+    //@| }
+
+    //@@ fn src/router/request_matcher/datetime.rs :: impl <T>DateTimeMatcher<T> / fn remove -> r
+    //@| requires old(self).wf(),
+    //@| ensures removed_rel(*old(self), *final(self), id@, r),
+    //@| outline `self.condition_groups.retain(|_, matcher| { if let Some(value) = matcher.remove(id) { removed = Some(value); } !matcher.is_empty() });` => `outl_btree_retain_remove(&mut self.condition_groups, id, &mut removed);`
+    //@| entry broadcast use vstd::std_specs::btree::group_btree_axioms; broadcast use axiom_dtc_key; broadcast use axiom_dtcset_key;
+    //@|     proof { lemma_dt_wf(*self); }
+    //@| before `self.count -= 1;`#0: proof { assert(old(self).any_datetime.holds(removed.unwrap())); assert(old(self).sholds(removed.unwrap())); assert(old(self).holds(removed.unwrap())); }
+    //@| before `return removed;`: proof { lemma_dt_removed_any(*old(self), *self, id@, removed.unwrap()); }
+    //@| before `if removed.is_some() {`#1: proof { if removed is Some { assert(old(self).sholds(removed.unwrap())); assert(old(self).holds(removed.unwrap())); } }
+    //@| exit proof { lemma_dt_removed(*old(self), *self, id@, removed); }
+
+    //@@ fn src/router/request_matcher/datetime.rs :: impl <T>DateTimeMatcher<T> / fn batch_remove -> r
+    //@| requires old(self).wf(),
+    //@| ensures batched_rel(*old(self), *final(self), ids@),
+    //@| closure `|_, matcher|` => `|_k: &BTreeSet<DateTimeCondition>, matcher: &mut Sub<T>| -> (b: bool) requires old(matcher).wf() ensures batched_rel(*old(matcher), *final(matcher), ids@), !b ==> final(matcher).cnt() == 0`
+    //@| entry broadcast use vstd::std_specs::btree::group_btree_axioms; broadcast use axiom_dtc_key; broadcast use axiom_dtcset_key;
+    //@| exit proof { lemma_dt_batched(*old(self), *self, ids@); }
+
+    //@@ fn src/router/request_matcher/datetime.rs :: impl <T>DateTimeMatcher<T> / fn len -> r
+    //@| ensures r == self.cnt(),
+    //@@ fn src/router/request_matcher/datetime.rs :: impl <T>DateTimeMatcher<T> / fn is_empty -> r
+    //@| ensures r == (self.cnt() == 0),
+}
+//@@ unrename PathAndQueryMatcher
+
 // ================================================================ Router (src/router/mod.rs)
 //@@ rename SchemeMatcher Sub
 //@@ item src/router/mod.rs :: struct Router
